@@ -488,10 +488,25 @@ class World:
     async def op_drop_unknown(self, op):
         h = _h(b"c18-unknown-%d" % op["k"])
         self.add_known(h)
-        if not self.has_file(h):
-            with open(os.path.join(self.blob_dir, h), "wb") as f:
-                f.write(b"unknown-%d" % op["k"])
+        if not self.has_file(h) and not os.path.lexists(os.path.join(self.blob_dir, h)):
+            form = op.get("form", "small")
+            path = os.path.join(self.blob_dir, h)
+            if form == "oversized":
+                # larger than any blob can be (3 MiB, sparse): still a file named like a blob
+                with open(path, "wb"):
+                    pass
+                os.truncate(path, 3 * 2 ** 20)
+            elif form == "symlink":
+                # the blob lives on another disk and is linked into the blob directory
+                target = os.path.join(self.remote_dir, "linked-" + h[:16])
+                with open(target, "wb") as f:
+                    f.write(b"linked-%d" % op["k"])
+                os.symlink(target, path)
+            else:
+                with open(path, "wb") as f:
+                    f.write(b"unknown-%d" % op["k"])
             self.changed_since_restart = True
+            self.out.label("drop_unknown:" + form)
         self.out.label("op:drop_unknown")
 
     async def op_drop_invalid(self, op):
@@ -585,7 +600,8 @@ def op_strategy():
     rm_file = st.builds(lambda i: {"op": "rm_file", "i": i}, idx)
     drop_file = st.builds(lambda m, i, c: {"op": "drop_file", "mode": m, "i": i, "content": c},
                           st.sampled_from([0, 2, 2, 4]), idx, st.sampled_from([0, 0, 1, 2]))
-    drop_unknown = st.builds(lambda k: {"op": "drop_unknown", "k": k}, st.integers(0, 5))
+    drop_unknown = st.builds(lambda k, f: {"op": "drop_unknown", "k": k, "form": f}, st.integers(0, 5),
+                             st.sampled_from(["small", "small", "oversized", "symlink"]))
     drop_invalid = st.builds(lambda k, kind: {"op": "drop_invalid", "k": k, "kind": kind}, st.integers(0, 5),
                              st.sampled_from(INVALID_KINDS))
     db_row_delete = st.builds(lambda m, i: {"op": "db_row_delete", "mode": m, "i": i}, st.sampled_from([0, 1, 1, 2]), idx)
@@ -608,5 +624,5 @@ PARTS = [
     Part("history", case_strategy, run_case, 300, 4000, quick_shards=4, thorough_shards=16,
          essential=("window:file-without-row", "window:file-with-pending-row", "window:finished-row-without-file",
                     "crash:complete", "crash:publish", "crash:delete", "op:delete", "restart:repeated",
-                    "op:drop_invalid", "op:remote", "bulk:gt500", "data_store:kept-in-process", "data_store:new-process", "op:announce", "announcer-has-work")),
+                    "op:drop_invalid", "op:remote", "bulk:gt500", "data_store:kept-in-process", "data_store:new-process", "op:announce", "announcer-has-work", "drop_unknown:oversized", "drop_unknown:symlink")),
 ]
